@@ -2213,4 +2213,142 @@ theorem posOK_of_obs (W : World N V T) (s : Sig N V T) (kw' ckw nkw : List (N ×
                 · simp at h; exact hnd.1 (h ▸ List.mem_map_of_mem hq)
               · rw [hexcl]; simp [hpriv]
 
+/-! ### assembling the raw call -/
+
+theorem fillPo_length (W : World N V T) (ps : List (Param N V T)) :
+    ∀ (c : Bool) (r : List V), fillPo W ps c = .ok r → r.length ≤ ps.length := by
+  induction ps with
+  | nil => intro c r h; simp [fillPo] at h; subst h; simp
+  | cons p ps ih =>
+    intro c r h
+    unfold fillPo at h
+    split at h
+    · split at h
+      · cases h
+      · split at h
+        · cases hf : fillPo W ps true with
+          | error e => simp [hf, Except.map] at h
+          | ok r' =>
+            simp only [hf, Except.map, Except.ok.injEq] at h
+            subst h
+            have := ih true r' hf
+            simp; omega
+        · have := ih false r h; simp; omega
+    · split at h
+      · split at h
+        · cases hf : fillPo W ps true with
+          | error e => simp [hf, Except.map] at h
+          | ok r' =>
+            simp only [hf, Except.map, Except.ok.injEq] at h
+            subst h
+            have := ih true r' hf
+            split <;> simp <;> omega
+        · have := ih false r h; simp; omega
+      · have := ih false r h; simp; omega
+
+theorem mapM_option_length {α β : Type} (f : α → Option β) (l : List α) (r : List β) (h : l.mapM f = some r) :
+    r.length = l.length := by
+  induction l generalizing r with
+  | nil => simp at h; subst h; rfl
+  | cons a l ih =>
+    simp only [List.mapM_cons] at h
+    cases hf : f a with
+    | none => simp [hf] at h
+    | some b =>
+      cases hm : l.mapM f with
+      | none => simp [hf, hm] at h
+      | some r' =>
+        simp [hf, hm] at h
+        subst h
+        simp [ih r' hm]
+
+theorem convArgs_length (W : World N V T) (vpT : Option T) (ps : List (Param N V T)) :
+    ∀ (as cas : List V), Spec.convArgs W vpT ps as = some cas → cas.length = as.length := by
+  induction ps with
+  | nil =>
+    intro as cas h
+    cases as with
+    | nil => simp [Spec.convArgs] at h; subst h; rfl
+    | cons a as => simp only [Spec.convArgs] at h; exact mapM_option_length _ _ _ h
+  | cons p ps ih =>
+    intro as cas h
+    cases as with
+    | nil => simp [Spec.convArgs] at h; subst h; rfl
+    | cons a as =>
+      simp only [Spec.convArgs] at h
+      split at h
+      · rename_i v vs _ hvs
+        cases h
+        simp [ih as vs hvs]
+      · cases h
+
+theorem bindKos_congr (kw' c : List (N × V)) (ks : List (Param N V T))
+    (h : ∀ p ∈ ks, (kw'.lookup p.name <|> p.dflt) = (c.lookup p.name <|> p.dflt)) :
+    bindKos kw' ks = bindKos c ks := by
+  induction ks with
+  | nil => rfl
+  | cons p ks ih =>
+    unfold bindKos
+    rw [h p (by simp), ih (fun q hq => h q (by simp [hq]))]
+
+theorem keysOf_sub_names (W : World N V T) (ps : List (Param N V T)) :
+    ∀ (as : List V) (x : N), x ∈ keysOf W ps as → x ∈ ps.map (·.name) := by
+  induction ps with
+  | nil => intro as x hx; cases as <;> simp [keysOf, poFieldNames] at hx
+  | cons p ps ih =>
+    intro as x hx
+    cases as with
+    | nil =>
+      simp only [keysOf] at hx
+      obtain ⟨q, hq, hn, _⟩ := (mem_poFieldNames W _ _).mp hx
+      exact hn ▸ List.mem_map_of_mem hq
+    | cons a as =>
+      simp only [keysOf] at hx
+      split at hx
+      · exact List.mem_cons_of_mem _ (ih as x hx)
+      · rcases List.mem_cons.mp hx with rfl | hx'
+        · simp
+        · exact List.mem_cons_of_mem _ (ih as x hx')
+
+theorem pyBindCore_some (s : Sig N V T) (args : List V) (kw : List (N × V)) (b : Binding N V)
+    (h : pyBindCore s args kw = some b) :
+    (s.vp = none → args.length ≤ s.pos.length) ∧
+    (∃ ps, bindPos kw s.pos args = some ps) ∧ (∃ ks, bindKos kw s.kos = some ks) ∧
+    (s.vk = none → kw.filter (fun e => !s.kwTarget e.1) = []) := by
+  unfold pyBindCore at h
+  split at h
+  · cases h
+  · rename_i hlen
+    split at h
+    · rename_i ps ks hps hks
+      simp only at h
+      split at h
+      · cases h
+      · rename_i hvk
+        refine ⟨?_, ⟨ps, hps⟩, ⟨ks, hks⟩, ?_⟩
+        · intro hvp
+          simp only [hvp, Option.isNone_none, Bool.true_and, decide_eq_true_eq] at hlen
+          omega
+        · intro hv
+          simp only [hv, Option.isNone_none, Bool.true_and, Bool.not_eq_true', List.isEmpty_eq_false_iff,
+            ne_eq] at hvk
+          exact Decidable.not_not.mp hvk
+    · cases h
+
+theorem pyBindCore_final (s : Sig N V T) (cas fill : List V) (kw' c : List (N × V))
+    (hbp : bindPos kw' s.pos (cas ++ fill) = bindPos c s.pos cas)
+    (hbk : bindKos kw' s.kos = bindKos c s.kos)
+    (hex : kw'.filter (fun e => !s.kwTarget e.1) = c.filter (fun e => !s.kwTarget e.1))
+    (hlen : fill.length ≤ (s.pos.drop cas.length).length) :
+    pyBindCore s (cas ++ fill) kw' = pyBindCore s cas c := by
+  simp only [List.length_drop] at hlen
+  unfold pyBindCore
+  have h1 : (s.pos.length < (cas ++ fill).length) = (s.pos.length < cas.length) := by
+    simp only [List.length_append, eq_iff_iff]; omega
+  have h2 : (cas ++ fill).drop s.pos.length = cas.drop s.pos.length := by
+    rw [List.drop_append]
+    have : fill.drop (s.pos.length - cas.length) = [] := List.drop_eq_nil_of_le (by omega)
+    rw [this, List.append_nil]
+  simp only [h1, hbp, hbk, hex, h2]
+
 end Utv.C08
